@@ -468,7 +468,9 @@ def code_features(code, feats):
     if nent >= 2:
         feats["line_entries_ge2"] += 1
     addr = 0
+    ld = None
     for i in range(0, len(tab), 2):
+        prev_ld = ld
         bd = tab[i]
         ld = tab[i + 1]
         ld = ld - 256 if ld >= 128 else ld
@@ -487,7 +489,7 @@ def code_features(code, feats):
                 feats["split_line_entry"] += 1
             if bd == 255:
                 feats["split_byte_entry"] += 1
-            if bd == 0 and i > 0:
+            if bd == 0 and i > 0 and prev_ld not in (127, -128):
                 feats["zero_width_entry"] += 1
             if ld == 0:
                 feats["dline0_entry"] += 1
